@@ -50,8 +50,12 @@ def comparators(P, R, rule='C19.ARITH.1'):
                         def wide(e):
                             # a full-width integer operand: a dereferenced int/long pointer, or a non-bitfield int field
                             if e.get('k') == 'un' and e['op'] == '*' and is_var(e['e']):
-                                t = e['e'].get('t', '')
-                                return not any(n in t for n in ('char', 'short', 'uint8', 'uint16'))
+                                t = e['e'].get('t', '').strip()
+                                # the value read is what the variable points to: strip one pointer level
+                                pointee = t[:t.rfind('*')].replace('const', '').strip() if '*' in t else t
+                                if '*' in pointee:
+                                    return True       # a pointer value: the difference is ptrdiff_t, narrowed to int
+                                return not any(n in pointee for n in ('char', 'short', 'uint8', 'uint16'))
                             if e.get('k') == 'mem':
                                 fd = P.record_field(e.get('rec'), e['field']) or {}
                                 return not fd.get('bitfield') and not any(n in fd.get('t', '') for n in ('char', 'short'))
